@@ -1,7 +1,7 @@
 (* C05 -- wire codecs are total, round-trip exactly and follow the RFC 9000 layout.
    Property theorems only; each is closed by [exact] of a lemma proved in proofs/. *)
 From SQ Require Import lib.Base gen.Gen_C05.
-From SQ Require model.Varint proofs.VarintProofs model.Frame proofs.FrameProofs proofs.FrameWf model.PacketHeader proofs.PacketProofs model.TpGrammar proofs.TpGrammarProofs.
+From SQ Require model.Varint proofs.VarintProofs proofs.VarintUpdatedProofs model.Frame proofs.FrameProofs proofs.FrameWf model.PacketHeader proofs.PacketProofs model.TpGrammar proofs.TpGrammarProofs model.PnExpand proofs.PnExpandProofs model.Fit proofs.FitProofs.
 Local Open Scope N_scope.
 
 (* ---- variable-length integers (RFC 9000 section 16) ---- *)
@@ -36,6 +36,16 @@ Proof. exact VarintProofs.varint_decode_total. Qed.
 Theorem C05_varint_table_is_rfc : forall x, x < 2 ^ 62 ->
   impl_read_optimized Gen_C05.varint_rows x = rfc_entry x /\ impl_formatted_bytes x = vencode x.
 Proof. exact VarintProofs.varint_table_is_rfc. Qed.
+
+(* VarInt::encode_updated (the packet encoder's Length field, deliberately not shortest): the
+   replacement is written on the placeholder's length with the RFC layout, and decodes back *)
+Theorem C05_varint_encode_updated : forall p r, r <= p -> p < 2 ^ 62 ->
+  impl_encode_updated p r = vencode_n (vsize p) r
+  /\ forall rest, vdecode (impl_encode_updated p r ++ rest) = Some (r, rest).
+Proof.
+  exact (fun p r Hr Hp => conj (VarintUpdatedProofs.encode_updated_is_rfc p r Hr Hp)
+                               (fun rest => VarintUpdatedProofs.encode_updated_roundtrip p r rest Hr Hp)).
+Qed.
 
 Theorem C05_max_varint_is_2_62_minus_1 : Gen_C05.max_varint_value = 2 ^ 62 - 1.
 Proof. exact VarintProofs.max_varint_is_2_62_minus_1. Qed.
@@ -170,11 +180,78 @@ Proof. exact TpGrammarProofs.tp_parse_fuel. Qed.
 Theorem C05_tparams_judge_model : forall case, TpGrammar.judge case (TpGrammar.run case) = true.
 Proof. exact TpGrammarProofs.judge_run. Qed.
 
+(* ---- packet number reconstruction (RFC 9000 A.3) through the wire bytes ---- *)
+Import PnExpand.
+
+(* everything the encoder emits decodes back: for each length n, the n wire bytes of pn expand,
+   against every largest-received number whose A.3 window contains pn, to pn itself - including
+   the windows that touch 2^62 *)
+Theorem C05_pn_expand_roundtrip : forall n largest pn, In n [1; 2; 3; 4]%nat ->
+  pn < pn_limit -> largest < pn_limit -> in_window largest pn (8 * N.of_nat n) = true ->
+  expand largest (pn_value (pn_bytes n pn)) (8 * N.of_nat n) = pn.
+Proof. exact PnExpandProofs.expand_roundtrip. Qed.
+
+Theorem C05_pnx_judge_model : forall case, PnExpand.judge case (PnExpand.run case) = true.
+Proof. exact PnExpandProofs.judge_run. Qed.
+
+(* ---- capacity helpers: what is announced to fit, fits (Stream::try_fit, Crypto::try_fit) ---- *)
+Import Fit.
+
+(* the sizes used are those of the reference frame codec *)
+Theorem C05_fit_sizes_are_frame_sizes : forall id off last fin d,
+  fsize (FStream id off last fin d) = stream_size id off (N.of_nat (length d)) last
+  /\ fsize (FCrypto off d) = crypto_size off (N.of_nat (length d)).
+Proof. exact (fun id off last fin d => conj (FitProofs.stream_size_is_fsize id off last fin d) (FitProofs.crypto_size_is_fsize off d)). Qed.
+
+(* the model of Stream::try_fit: the returned payload never exceeds the data offered, the frame
+   encodes to at most the capacity; without Length field it fills the capacity exactly, and a
+   trimmed frame with Length field is short of the capacity by exactly the bytes its length
+   prefix shrank (at most 4): maximal up to that slack *)
+Theorem C05_fit_within_capacity : forall id off dlen cap len last,
+  fit_stream id off dlen cap = Some (len, last) ->
+  len <= dlen /\ stream_size id off len last <= cap
+  /\ (last = true -> stream_size id off len last = cap)
+  /\ (last = false -> len < dlen -> stream_size id off len last + vsz dlen = cap + vsz len).
+Proof. exact FitProofs.fit_stream_within_capacity. Qed.
+
+Theorem C05_fit_crypto_within_capacity : forall off dlen cap len,
+  fit_crypto off dlen cap = Some len -> len <= dlen /\ crypto_size off len <= cap.
+Proof. exact FitProofs.fit_crypto_within_capacity. Qed.
+
+(* FitError exactly when not even the frame without payload fits *)
+Theorem C05_fit_error_iff : forall id off dlen cap, dlen < two62 -> cap < two62 ->
+  (fit_stream id off dlen cap = None <-> cap < stream_fixed id off)
+  /\ (fit_crypto off dlen cap = None <-> cap < crypto_fixed off + 1).
+Proof. exact (fun id off dlen cap Hd Hc => conj (FitProofs.fit_stream_error_iff id off dlen cap Hd Hc) (FitProofs.fit_crypto_error_iff off dlen cap Hd Hc)). Qed.
+
+Theorem C05_fit_judge_model : forall k id off dlen fin cap rest,
+  zN dlen < two62 -> zN cap < two62 ->
+  Fit.judge (k :: id :: off :: dlen :: fin :: cap :: rest) (Fit.run (k :: id :: off :: dlen :: fin :: cap :: rest)) = true.
+Proof. exact FitProofs.judge_run. Qed.
+
+(* an accepted answer is a frame that fits *)
+Theorem C05_fit_judge_sound : forall id off dlen fin cap len last sz w rest,
+  Fit.judge (0%Z :: id :: off :: dlen :: fin :: cap :: rest) [1%Z; len; last; sz; w] = true ->
+  zN len <= zN dlen /\ sz = Nz (stream_size (zN id) (zN off) (zN len) (last =? 1)%Z)
+  /\ stream_size (zN id) (zN off) (zN len) (last =? 1)%Z <= zN cap.
+Proof. exact FitProofs.judge_sound_stream. Qed.
+
+(* non-vacuity: the A.3 example; the edge at 2^62; stream id 4, 64 bytes, capacity 67 -> 63 bytes
+   with a one-byte Length (66 bytes in all); an answer of 64 bytes (68 in all) is rejected *)
+Example C05_pnx_fit_examples :
+  expand 0xa82f30ea 0x9b32 16 = 0xa82f9b32
+  /\ expand (pn_limit - 2) 0 8 = pn_limit - 256
+  /\ fit_stream 4 0 64 67 = Some (63, false) /\ stream_size 4 0 63 false = 66
+  /\ Fit.judge [0; 4; 0; 64; 0; 67]%Z [1; 64; 0; 68; 68]%Z = false
+  /\ Fit.judge [0; 4; 0; 64; 0; 67]%Z [1; 63; 0; 66; 66]%Z = true.
+Proof. repeat split; vm_compute; reflexivity. Qed.
+
 Print Assumptions C05_varint_roundtrip.
 Print Assumptions C05_varint_roundtrip_any_length.
 Print Assumptions C05_varint_size.
 Print Assumptions C05_varint_decode_total.
 Print Assumptions C05_varint_table_is_rfc.
+Print Assumptions C05_varint_encode_updated.
 Print Assumptions C05_max_varint_is_2_62_minus_1.
 Print Assumptions C05_varint_judge_model.
 Print Assumptions C05_varint_judge_sound.
@@ -197,3 +274,11 @@ Print Assumptions C05_pn_judge_model.
 Print Assumptions C05_tparams_roundtrip.
 Print Assumptions C05_tparams_total.
 Print Assumptions C05_tparams_judge_model.
+Print Assumptions C05_pn_expand_roundtrip.
+Print Assumptions C05_pnx_judge_model.
+Print Assumptions C05_fit_sizes_are_frame_sizes.
+Print Assumptions C05_fit_within_capacity.
+Print Assumptions C05_fit_crypto_within_capacity.
+Print Assumptions C05_fit_error_iff.
+Print Assumptions C05_fit_judge_model.
+Print Assumptions C05_fit_judge_sound.
